@@ -4,6 +4,7 @@ pub mod dag;
 pub mod engine;
 pub mod r#gen;
 pub mod model;
+pub mod oracle_srv;
 pub mod tape;
 pub mod util;
 
